@@ -52,11 +52,11 @@ VARIABLES
     \* ---- client goroutines
     pc,          \* program counter
     op,          \* current / last operation
-    res,         \* result class of the last completed call ("none" while running)
     pb,          \* phase (0,1,2) when the current call began
     nops,        \* calls completed
     cancelled,   \* the context of the current call has been cancelled
     rd,          \* read-lock count held by the goroutine (recursion => 2)
+    viol,        \* some call returned a result the observable contract (ProtoObs) forbids
     \* ---- indexImpl.mutex, open
     writer,      \* holder of the write lock or None
     wpend,       \* goroutines inside mutex.Lock() waiting for readers to drain
@@ -87,7 +87,7 @@ VARIABLES
     fmDone,      \* callers whose msg.doneCh is closed
     fmInProg     \* TotFileMergeForceOpsStarted - ...Completed
 
-cvars  == <<pc, op, res, pb, nops, cancelled, rd>>
+cvars  == <<pc, op, pb, nops, cancelled, rd, viol>>
 lvars  == <<writer, wpend, open>>
 clvars == <<closed, closeBegun, closeRet>>
 bvars  == <<applied, persisted, rootPers, ourPers>>
@@ -107,9 +107,9 @@ LockingOps == {"batchS", "batchU", "search", "fielddict", "copyto", "doccount"}
 
 Init ==
     /\ pc = [c \in Callers |-> "idle"] /\ op = [c \in Callers |-> "none"]
-    /\ res = [c \in Callers |-> "none"] /\ pb = [c \in Callers |-> 0]
+    /\ pb = [c \in Callers |-> 0]
     /\ nops = [c \in Callers |-> 0] /\ cancelled = [c \in Callers |-> FALSE]
-    /\ rd = [c \in Callers |-> 0]
+    /\ rd = [c \in Callers |-> 0] /\ viol = FALSE
     /\ writer = None /\ wpend = {} /\ open = TRUE
     /\ closed = FALSE /\ closeBegun = FALSE /\ closeRet = FALSE
     /\ applied = {} /\ persisted = {} /\ rootPers = {} /\ ourPers = {}
@@ -133,136 +133,129 @@ CanRLock    == writer = None /\ wpend = {}
 CanLock     == writer = None /\ Readers = {}
 
 \* ---------------------------------------------------------------- clients
-
-Ret(c, r) == /\ res' = [res EXCEPT ![c] = r]
-             /\ pc' = [pc EXCEPT ![c] = "idle"]
-             /\ nops' = [nops EXCEPT ![c] = @ + 1]
+\* A call returns result class r: the observable contract is evaluated HERE
+\* (viol latches a breach); the per-call bookkeeping is then forgotten, which
+\* keeps idle goroutines indistinguishable.
+Ret(c, r, phaseAfter) ==
+    /\ viol' = (viol \/ ~Obs!ResAllowed(op[c], pb[c], phaseAfter, r, cancelled[c]))
+    /\ pc' = [pc EXCEPT ![c] = "idle"] /\ nops' = [nops EXCEPT ![c] = @ + 1]
+    /\ op' = [op EXCEPT ![c] = "none"] /\ pb' = [pb EXCEPT ![c] = 0]
+    /\ cancelled' = [cancelled EXCEPT ![c] = FALSE]
 
 Begin(c, o) ==
     /\ pc[c] = "idle" /\ nops[c] < MaxOps /\ o \in Ops
     /\ (o = "close") => (HazClose2 \/ ~closeBegun)
     /\ (o = "forcemerge") => (HasLoops \/ (Engine = "mem" /\ HazFMMem))
     /\ op' = [op EXCEPT ![c] = o] /\ pb' = [pb EXCEPT ![c] = Phase]
-    /\ res' = [res EXCEPT ![c] = "none"]
-    /\ cancelled' = [cancelled EXCEPT ![c] = FALSE]
     /\ pc' = [pc EXCEPT ![c] =
                  CASE o \in LockingOps -> "rl"
                    [] o = "stats"      -> "st"
                    [] o = "forcemerge" -> "fm_check"
                    [] o = "close"      -> "cl_req"]
     /\ closeBegun' = (closeBegun \/ o = "close")
-    /\ UNCHANGED <<nops, rd, lvars, closed, closeRet, bvars, rvars, ivars, pvars, mvars, fvars>>
+    /\ UNCHANGED <<nops, cancelled, rd, viol, lvars, closed, closeRet, bvars, rvars, ivars, pvars, mvars, fvars>>
 
-\* ctx cancel / deadline expiry: an environment event at an arbitrary moment
+\* ctx cancel / deadline expiry: an environment event at an arbitrary moment of the call
 Cancel(c) ==
     /\ pc[c] # "idle" /\ op[c] \in {"search", "forcemerge"} /\ ~cancelled[c]
     /\ cancelled' = [cancelled EXCEPT ![c] = TRUE]
-    /\ UNCHANGED <<pc, op, res, pb, nops, rd, lvars, clvars, bvars, rvars, ivars, pvars, mvars, fvars>>
+    /\ UNCHANGED <<pc, op, pb, nops, rd, viol, lvars, clvars, bvars, rvars, ivars, pvars, mvars, fvars>>
 
 \* i.mutex.RLock(); if !i.open {...}
 RLock(c) ==
     /\ pc[c] = "rl" /\ CanRLock
     /\ rd' = [rd EXCEPT ![c] = @ + 1]
-    /\ IF ~open
-         THEN /\ res' = [res EXCEPT ![c] = "closed"]
-              /\ pc' = [pc EXCEPT ![c] = "ru"]
-         ELSE /\ res' = res
-              /\ pc' = [pc EXCEPT ![c] =
-                    CASE op[c] \in {"batchS", "batchU"} -> IF Scorch THEN "b_send" ELSE "b_ud"
-                      [] op[c] = "search"    -> "s_run"
-                      [] op[c] = "fielddict" -> "fd_held"
-                      [] op[c] = "copyto"    -> "cp_run"
-                      [] op[c] = "doccount"  -> "dc_run"]
-    /\ UNCHANGED <<op, pb, nops, cancelled, lvars, clvars, bvars, rvars, ivars, pvars, mvars, fvars>>
+    /\ pc' = [pc EXCEPT ![c] =
+          IF ~open THEN "ru_closed"
+          ELSE CASE op[c] \in {"batchS", "batchU"} -> IF Scorch THEN "b_send" ELSE "b_ud"
+                 [] op[c] = "search"    -> "s_run"
+                 [] op[c] = "fielddict" -> "fd_held"
+                 [] op[c] = "copyto"    -> "cp_run"
+                 [] op[c] = "doccount"  -> "dc_run"]
+    /\ UNCHANGED <<op, pb, nops, cancelled, viol, lvars, clvars, bvars, rvars, ivars, pvars, mvars, fvars>>
 
-\* defer i.mutex.RUnlock(); return
-RUnlock(c) ==
-    /\ pc[c] = "ru"
-    /\ rd' = [rd EXCEPT ![c] = @ - 1]
-    /\ pc' = [pc EXCEPT ![c] = "idle"] /\ nops' = [nops EXCEPT ![c] = @ + 1]
-    /\ UNCHANGED <<op, res, pb, cancelled, lvars, clvars, bvars, rvars, ivars, pvars, mvars, fvars>>
-
-Finish(c, from, r) ==   \* body of a call ends with result r, lock still held
+\* the last step of a call's body fused with `defer i.mutex.RUnlock()` and the return
+\* (the body's last step is local to the goroutine, so the fusion loses no interleaving)
+UnlockRet(c, from, r) ==
     /\ pc[c] = from
-    /\ res' = [res EXCEPT ![c] = r] /\ pc' = [pc EXCEPT ![c] = "ru"]
-    /\ UNCHANGED <<op, pb, nops, cancelled, rd, lvars, clvars, bvars, rvars, ivars, pvars, mvars, fvars>>
+    /\ rd' = [rd EXCEPT ![c] = @ - 1]
+    /\ Ret(c, r, Phase)
+    /\ UNCHANGED <<lvars, clvars, rvars, ivars, pvars, mvars, fvars>>
+
+RUnlockClosed(c) == UnlockRet(c, "ru_closed", "closed") /\ UNCHANGED bvars   \* return ErrorIndexClosed
 
 \* err := <-introduction.applied            (scorch.go prepareSegment)
-BApplied(c) ==
-    /\ pc[c] = "b_applied" /\ c \in applied
+BAppliedSafe(c) ==
+    /\ pc[c] = "b_applied" /\ c \in applied /\ op[c] = "batchS" /\ Engine = "disk"
+    /\ applied' = applied \ {c} /\ pc' = [pc EXCEPT ![c] = "b_pers"]
+    /\ UNCHANGED <<op, pb, nops, cancelled, rd, viol, lvars, clvars, persisted, rootPers, ourPers, rvars, ivars, pvars, mvars, fvars>>
+BAppliedUnsafe(c) ==                         \* in-memory scorch forces unsafeBatch
+    /\ c \in applied /\ ~(op[c] = "batchS" /\ Engine = "disk")
     /\ applied' = applied \ {c}
-    /\ IF op[c] = "batchS" /\ Engine = "disk"     \* in-memory scorch forces unsafeBatch
-         THEN pc' = [pc EXCEPT ![c] = "b_pers"] /\ res' = res
-         ELSE pc' = [pc EXCEPT ![c] = "ru"] /\ res' = [res EXCEPT ![c] = "ok"]
-    /\ UNCHANGED <<op, pb, nops, cancelled, rd, lvars, clvars, persisted, rootPers, ourPers, rvars, ivars, pvars, mvars, fvars>>
-
+    /\ UnlockRet(c, "b_applied", "ok") /\ UNCHANGED <<persisted, rootPers, ourPers>>
 \* err = <-introduction.persisted
 BPersisted(c) ==
-    /\ pc[c] = "b_pers" /\ c \in persisted
-    /\ persisted' = persisted \ {c}
-    /\ pc' = [pc EXCEPT ![c] = "ru"] /\ res' = [res EXCEPT ![c] = "ok"]
-    /\ UNCHANGED <<op, pb, nops, cancelled, rd, lvars, clvars, applied, rootPers, ourPers, rvars, ivars, pvars, mvars, fvars>>
+    /\ c \in persisted /\ persisted' = persisted \ {c}
+    /\ UnlockRet(c, "b_pers", "ok") /\ UNCHANGED <<applied, rootPers, ourPers>>
 
-BUd(c)   == Finish(c, "b_ud", "ok")      \* upsidedown Batch: KV write under writeMutex, no channels
-DcRun(c) == Finish(c, "dc_run", "ok")
-CpRun(c) == Finish(c, "cp_run", IF Engine = "disk" THEN "ok" ELSE "other")
+BUd(c)   == UnlockRet(c, "b_ud", "ok") /\ UNCHANGED bvars    \* upsidedown Batch: KV write under writeMutex, no channels
+DcRun(c) == UnlockRet(c, "dc_run", "ok") /\ UNCHANGED bvars
+CpRun(c) == UnlockRet(c, "cp_run", IF Engine = "disk" THEN "ok" ELSE "other") /\ UNCHANGED bvars
 
 \* collector: every CheckDoneEvery hits `select { case <-ctx.Done(): return ctx.Err() default: }`
-SRun(c) ==
-    \/ Finish(c, "s_run", "ok")
-    \/ cancelled[c] /\ Finish(c, "s_run", "cancelled")
+SRunOk(c)        == UnlockRet(c, "s_run", "ok") /\ UNCHANGED bvars
+SRunCancelled(c) == cancelled[c] /\ UnlockRet(c, "s_run", "cancelled") /\ UNCHANGED bvars
 
 \* indexImplFieldDict.Close(): defer f.index.mutex.RUnlock()
-FDClose(c) == \/ Finish(c, "fd_held", "ok")
-              \/ Finish(c, "fd_held2", "ok")
+FDClose(c) == (UnlockRet(c, "fd_held", "ok") \/ UnlockRet(c, "fd_held2", "ok")) /\ UNCHANGED bvars
 
 \* HAZARD: with the dictionary open the same goroutine calls DocCount()
 FDNestedCall(c) ==
     /\ HazFD /\ pc[c] = "fd_held"
     /\ pc' = [pc EXCEPT ![c] = "fdn_rl"]
-    /\ UNCHANGED <<op, res, pb, nops, cancelled, rd, lvars, clvars, bvars, rvars, ivars, pvars, mvars, fvars>>
+    /\ UNCHANGED <<op, pb, nops, cancelled, rd, viol, lvars, clvars, bvars, rvars, ivars, pvars, mvars, fvars>>
 FDNestedRLock(c) ==
     /\ pc[c] = "fdn_rl" /\ CanRLock
     /\ rd' = [rd EXCEPT ![c] = @ + 1] /\ pc' = [pc EXCEPT ![c] = "fdn_ru"]
-    /\ UNCHANGED <<op, res, pb, nops, cancelled, lvars, clvars, bvars, rvars, ivars, pvars, mvars, fvars>>
+    /\ UNCHANGED <<op, pb, nops, cancelled, viol, lvars, clvars, bvars, rvars, ivars, pvars, mvars, fvars>>
 FDNestedRUnlock(c) ==
     /\ pc[c] = "fdn_ru"
     /\ rd' = [rd EXCEPT ![c] = @ - 1] /\ pc' = [pc EXCEPT ![c] = "fd_held2"]
-    /\ UNCHANGED <<op, res, pb, nops, cancelled, lvars, clvars, bvars, rvars, ivars, pvars, mvars, fvars>>
+    /\ UNCHANGED <<op, pb, nops, cancelled, viol, lvars, clvars, bvars, rvars, ivars, pvars, mvars, fvars>>
 
 \* Stats()/StatsMap(): no index lock
 St(c) ==
-    /\ pc[c] = "st" /\ Ret(c, "ok")
-    /\ UNCHANGED <<op, pb, cancelled, rd, lvars, clvars, bvars, rvars, ivars, pvars, mvars, fvars>>
+    /\ pc[c] = "st" /\ Ret(c, "ok", Phase)
+    /\ UNCHANGED <<rd, lvars, clvars, bvars, rvars, ivars, pvars, mvars, fvars>>
 
 (***************************************************************************)
 (* scorch.ForceMerge, reached through Advanced(): NO index lock.           *)
 (***************************************************************************)
-FMCheck(c) ==
-    /\ pc[c] = "fm_check"
-    /\ IF fmInProg > 0
-         THEN /\ Ret(c, "other") /\ fmInProg' = fmInProg     \* "force merge already in progress"
-         ELSE /\ fmInProg' = fmInProg + 1
-              /\ pc' = [pc EXCEPT ![c] = "fm_send"] /\ UNCHANGED <<res, nops>>
-    /\ UNCHANGED <<op, pb, cancelled, rd, lvars, clvars, bvars, rvars, ivars, pvars, mvars, fmSlot, fmDone>>
+FMCheckBusy(c) ==      \* "force merge already in progress"
+    /\ pc[c] = "fm_check" /\ fmInProg > 0 /\ Ret(c, "other", Phase)
+    /\ UNCHANGED <<rd, lvars, clvars, bvars, rvars, ivars, pvars, mvars, fvars>>
+FMCheckFree(c) ==
+    /\ pc[c] = "fm_check" /\ fmInProg = 0
+    /\ fmInProg' = 1 /\ pc' = [pc EXCEPT ![c] = "fm_send"]
+    /\ UNCHANGED <<op, pb, nops, cancelled, rd, viol, lvars, clvars, bvars, rvars, ivars, pvars, mvars, fmSlot, fmDone>>
 
 \* select { case s.forceMergeRequestCh <- msg: case <-s.closeCh: return nil }
 FMSendReq(c) ==
     /\ pc[c] = "fm_send" /\ fmSlot = None
     /\ fmSlot' = c /\ fmDone' = fmDone \ {c}
     /\ pc' = [pc EXCEPT ![c] = "fm_wait"]
-    /\ UNCHANGED <<op, res, pb, nops, cancelled, rd, lvars, clvars, bvars, rvars, ivars, pvars, mvars, fmInProg>>
+    /\ UNCHANGED <<op, pb, nops, cancelled, rd, viol, lvars, clvars, bvars, rvars, ivars, pvars, mvars, fmInProg>>
 FMSendClosed(c) ==
-    /\ pc[c] = "fm_send" /\ closed /\ Ret(c, "ok")
-    /\ UNCHANGED <<op, pb, cancelled, rd, lvars, clvars, bvars, rvars, ivars, pvars, mvars, fvars>>
+    /\ pc[c] = "fm_send" /\ closed /\ Ret(c, "ok", Phase)
+    /\ UNCHANGED <<rd, lvars, clvars, bvars, rvars, ivars, pvars, mvars, fvars>>
 \* select { case <-msg.doneCh: Completed++ case <-s.closeCh: }
 FMWaitDone(c) ==
     /\ pc[c] = "fm_wait" /\ c \in fmDone
-    /\ fmInProg' = fmInProg - 1 /\ Ret(c, "ok")
-    /\ UNCHANGED <<op, pb, cancelled, rd, lvars, clvars, bvars, rvars, ivars, pvars, mvars, fmSlot, fmDone>>
+    /\ fmInProg' = fmInProg - 1 /\ fmDone' = fmDone \ {c} /\ Ret(c, "ok", Phase)
+    /\ UNCHANGED <<rd, lvars, clvars, bvars, rvars, ivars, pvars, mvars, fmSlot>>
 FMWaitClosed(c) ==
-    /\ pc[c] = "fm_wait" /\ closed /\ Ret(c, "ok")
-    /\ UNCHANGED <<op, pb, cancelled, rd, lvars, clvars, bvars, rvars, ivars, pvars, mvars, fvars>>
+    /\ pc[c] = "fm_wait" /\ closed /\ Ret(c, "ok", Phase)
+    /\ UNCHANGED <<rd, lvars, clvars, bvars, rvars, ivars, pvars, mvars, fvars>>
 
 (***************************************************************************)
 (* indexImpl.Close: mutex.Lock(); open = false; i.i.Close(); Unlock()      *)
@@ -271,28 +264,28 @@ FMWaitClosed(c) ==
 ClReq(c) ==      \* Lock() announces itself: from now on new RLock()s block
     /\ pc[c] = "cl_req"
     /\ wpend' = wpend \cup {c} /\ pc' = [pc EXCEPT ![c] = "cl_acq"]
-    /\ UNCHANGED <<op, res, pb, nops, cancelled, rd, writer, open, clvars, bvars, rvars, ivars, pvars, mvars, fvars>>
+    /\ UNCHANGED <<op, pb, nops, cancelled, rd, viol, writer, open, clvars, bvars, rvars, ivars, pvars, mvars, fvars>>
 ClAcq(c) ==      \* readers drained: write lock held; i.open = false
     /\ pc[c] = "cl_acq" /\ CanLock
     /\ writer' = c /\ wpend' = wpend \ {c} /\ open' = FALSE
     /\ pc' = [pc EXCEPT ![c] = "cl_sig"]
-    /\ UNCHANGED <<op, res, pb, nops, cancelled, rd, clvars, bvars, rvars, ivars, pvars, mvars, fvars>>
+    /\ UNCHANGED <<op, pb, nops, cancelled, rd, viol, clvars, bvars, rvars, ivars, pvars, mvars, fvars>>
 ClSignal(c) ==   \* close(s.closeCh) - panics if already closed; upsidedown: store.Close()
     /\ pc[c] = "cl_sig"
     /\ IF Scorch
          THEN IF closed THEN pc' = [pc EXCEPT ![c] = "panic"] /\ closed' = closed
                         ELSE pc' = [pc EXCEPT ![c] = "cl_wait"] /\ closed' = TRUE
          ELSE pc' = [pc EXCEPT ![c] = "cl_unlock"] /\ closed' = closed
-    /\ UNCHANGED <<op, res, pb, nops, cancelled, rd, lvars, closeBegun, closeRet, bvars, rvars, ivars, pvars, mvars, fvars>>
+    /\ UNCHANGED <<op, pb, nops, cancelled, rd, viol, lvars, closeBegun, closeRet, bvars, rvars, ivars, pvars, mvars, fvars>>
 LoopsDone == /\ ipc \in {"done", "absent"} /\ ppc \in {"done", "absent"} /\ mpc \in {"done", "absent"}
 ClWait(c) ==     \* s.asyncTasks.Wait()
     /\ pc[c] = "cl_wait" /\ LoopsDone
     /\ pc' = [pc EXCEPT ![c] = "cl_unlock"]
-    /\ UNCHANGED <<op, res, pb, nops, cancelled, rd, lvars, clvars, bvars, rvars, ivars, pvars, mvars, fvars>>
+    /\ UNCHANGED <<op, pb, nops, cancelled, rd, viol, lvars, clvars, bvars, rvars, ivars, pvars, mvars, fvars>>
 ClUnlock(c) ==   \* defer i.mutex.Unlock(); return
     /\ pc[c] = "cl_unlock"
-    /\ writer' = None /\ closeRet' = TRUE /\ Ret(c, "ok")
-    /\ UNCHANGED <<op, pb, cancelled, rd, wpend, open, closed, closeBegun, bvars, rvars, ivars, pvars, mvars, fvars>>
+    /\ writer' = None /\ closeRet' = TRUE /\ Ret(c, "ok", 2)
+    /\ UNCHANGED <<rd, wpend, open, closed, closeBegun, bvars, rvars, ivars, pvars, mvars, fvars>>
 
 \* ------------------------------------------------------------ introducerLoop
 (* after every non-close arm: close(w.notifyCh) for watchers with w.epoch < root.epoch *)
@@ -317,7 +310,7 @@ IBatch(c) ==
     /\ rootPers' = IF op[c] = "batchS" /\ Engine = "disk" THEN rootPers \cup {c} ELSE rootPers
     /\ epoch' = epoch + 1 /\ unp' = unp + 1
     /\ pW' = PWAfterPass(pW, epoch + 1)
-    /\ UNCHANGED <<op, res, pb, nops, cancelled, rd, lvars, clvars, persisted, ourPers, ivars, ppc, lastPers, pSnap, pUnp, lastMerged, pWep, iSlot, mvars, fvars>>
+    /\ UNCHANGED <<op, pb, nops, cancelled, rd, viol, lvars, clvars, persisted, ourPers, ivars, ppc, lastPers, pSnap, pUnp, lastMerged, pWep, iSlot, mvars, fvars>>
 
 \* case persist := <-s.persists (rendezvous with persistSnapshotDirect);
 \* introducePersist: new root, close(persist.applied)
@@ -432,8 +425,8 @@ PTake ==
 PSendClosed ==
     /\ ppc \in {"mm_send", "pi_send"} /\ closed
     /\ persisted' = persisted \cup ourPers /\ ourPers' = {}
-    /\ ppc' = "done"
-    /\ UNCHANGED <<cvars, lvars, clvars, applied, rootPers, rvars, ivars, lastPers, pSnap, pUnp, lastMerged, pW, pWep, iSlot, mvars, fvars>>
+    /\ ppc' = "done" /\ pSnap' = 0 /\ pUnp' = 0
+    /\ UNCHANGED <<cvars, lvars, clvars, applied, rootPers, rvars, ivars, lastPers, lastMerged, pW, pWep, iSlot, mvars, fvars>>
 
 \* <-persist.applied  (closed by introducePersist before the introducer selects again)
 PAppliedWait ==
@@ -446,9 +439,9 @@ PFinish ==
     /\ ppc = "finish"
     /\ persisted' = persisted \cup ourPers /\ ourPers' = {}
     /\ mW' = IF mW = "listed" THEN "notified" ELSE mW
-    /\ lastPers' = pSnap
+    /\ lastPers' = pSnap /\ pSnap' = 0 /\ pUnp' = 0          \* (dead from here on)
     /\ ppc' = IF epoch # pSnap THEN "top" ELSE "n_send"
-    /\ UNCHANGED <<cvars, lvars, clvars, applied, rootPers, rvars, ivars, pSnap, pUnp, lastMerged, pW, pWep, iSlot, mpc, ctrl, lastPlanned, mSnap, nMerges, mWep, pSlot, pSlotEp, fvars>>
+    /\ UNCHANGED <<cvars, lvars, clvars, applied, rootPers, rvars, ivars, lastMerged, pW, pWep, iSlot, mpc, ctrl, lastPlanned, mSnap, nMerges, mWep, pSlot, pSlotEp, fvars>>
 
 \* select { case <-s.closeCh: break OUTER; case s.introducerNotifier <- w: }
 PNotifyClosed ==
@@ -563,9 +556,10 @@ MergStep == MTopClosed \/ MTopTake \/ MPlanNothing \/ MPlanWork \/ MWorkDone \/ 
 
 \* ------------------------------------------------------------------- system
 CallerStep(c) ==    \* steps of a call in progress (not the decision to call, not cancellation)
-    \/ RLock(c) \/ RUnlock(c) \/ BApplied(c) \/ BPersisted(c) \/ BUd(c) \/ DcRun(c) \/ CpRun(c)
-    \/ SRun(c) \/ FDClose(c) \/ FDNestedRLock(c) \/ FDNestedRUnlock(c) \/ St(c)
-    \/ FMCheck(c) \/ FMSendReq(c) \/ FMSendClosed(c) \/ FMWaitDone(c) \/ FMWaitClosed(c)
+    \/ RLock(c) \/ RUnlockClosed(c) \/ BAppliedSafe(c) \/ BAppliedUnsafe(c) \/ BPersisted(c) \/ BUd(c)
+    \/ DcRun(c) \/ CpRun(c) \/ SRunOk(c) \/ SRunCancelled(c) \/ FDClose(c)
+    \/ FDNestedRLock(c) \/ FDNestedRUnlock(c) \/ St(c)
+    \/ FMCheckBusy(c) \/ FMCheckFree(c) \/ FMSendReq(c) \/ FMSendClosed(c) \/ FMWaitDone(c) \/ FMWaitClosed(c)
     \/ ClReq(c) \/ ClAcq(c) \/ ClSignal(c) \/ ClWait(c) \/ ClUnlock(c)
 
 ClientChoice(c) == (\E o \in Ops : Begin(c, o)) \/ Cancel(c) \/ FDNestedCall(c)
@@ -589,13 +583,12 @@ FairSpec == /\ Spec
 States == {"none", "slot", "listed", "notified"}
 Slots  == {"empty", "cur", "stale"}
 TypeOK ==
-    /\ pc \in [Callers -> {"idle", "rl", "ru", "b_send", "b_applied", "b_pers", "b_ud", "s_run", "dc_run",
+    /\ pc \in [Callers -> {"idle", "rl", "ru_closed", "b_send", "b_applied", "b_pers", "b_ud", "s_run", "dc_run",
                            "cp_run", "fd_held", "fd_held2", "fdn_rl", "fdn_ru", "st", "fm_check", "fm_send",
                            "fm_wait", "cl_req", "cl_acq", "cl_sig", "cl_wait", "cl_unlock", "panic"}]
     /\ op \in [Callers -> Ops \cup {"none"}]
-    /\ res \in [Callers -> {"none", "ok", "closed", "cancelled", "other"}]
     /\ pb \in [Callers -> 0..2] /\ nops \in [Callers -> 0..MaxOps]
-    /\ cancelled \in [Callers -> BOOLEAN] /\ rd \in [Callers -> 0..2]
+    /\ cancelled \in [Callers -> BOOLEAN] /\ rd \in [Callers -> 0..2] /\ viol \in BOOLEAN
     /\ writer \in Callers \cup {None} /\ wpend \subseteq Callers /\ open \in BOOLEAN
     /\ closed \in BOOLEAN /\ closeBegun \in BOOLEAN /\ closeRet \in BOOLEAN
     /\ applied \subseteq Callers /\ persisted \subseteq Callers
@@ -617,22 +610,16 @@ LockBalanced == \A c \in Callers : pc[c] = "idle" => (rd[c] = 0 /\ writer # c /\
 
 NoPanic == \A c \in Callers : pc[c] # "panic"
 
-\* the observable contract (ProtoObs) holds at every call return
-ContractHolds ==
-    \A c \in Callers :
-        (pc[c] = "idle" /\ res[c] # "none") =>
-            Obs!ResAllowed(op[c], pb[c], Phase, res[c], cancelled[c])
-\* ... and its central clause, stated directly
-AfterCloseErrClosed ==
-    \A c \in Callers :
-        (pc[c] = "idle" /\ res[c] # "none" /\ pb[c] = 2 /\ op[c] \in LockingOps) => res[c] = "closed"
+\* the observable contract (ProtoObs!ResAllowed, evaluated in Ret) holds at every call return;
+\* its central clause: a locking call that began after Close returned yields the closed-index error
+ContractHolds == ~viol
 
 \* Close returns only when the background goroutines are gone and no reader is inside
 CloseReturnMeansStopped == closeRet => LoopsDone
 WriterMeansQuiescent ==
     \A c \in Callers : pc[c] \in {"cl_sig", "cl_wait", "cl_unlock"} =>
         \A d \in Callers : pc[d] \notin {"b_send", "b_applied", "b_pers", "b_ud", "s_run", "dc_run", "cp_run",
-                                         "fd_held", "fd_held2", "fdn_ru", "ru"}
+                                         "fd_held", "fd_held2", "fdn_ru", "ru_closed"}
 
 \* DESIGN lead 7: prepareSegment has no closeCh arm; safe because the read lock excludes Close
 BatchNeverSeesClose == \A c \in Callers : pc[c] \in {"b_send", "b_applied", "b_pers"} => ~closed
@@ -647,6 +634,31 @@ EveryCallReturns == \A c \in Callers : (pc[c] # "idle") ~> (pc[c] = "idle")
 \* a cancelled search returns, with the lock released
 CancelledSearchReturns ==
     \A c \in Callers : (op[c] = "search" /\ cancelled[c] /\ pc[c] # "idle") ~> (pc[c] = "idle" /\ rd[c] = 0)
+
+(***************************************************************************)
+(* VIEW for the exhaustive safety configurations.                          *)
+(* The loops only COMPARE epochs (and the root epoch only grows by one),   *)
+(* so a state and its translate by a constant have the same future; and a  *)
+(* remembered epoch that is overwritten before it is read again is dead.   *)
+(* The view maps dead epoch variables to 0 and shifts the live ones so     *)
+(* that the smallest is 1: a bisimulation quotient, not an abstraction.    *)
+(***************************************************************************)
+PSnapLive == ppc \in {"mm_send", "mm_wait", "pi_send", "pi_wait", "finish"}
+MSnapLive == mpc \in {"plan", "work", "send", "wait_n", "after_ok"}
+PWLive    == pW \in {"slot", "listed"}
+MWLive    == mW \in {"slot", "listed"}
+SlowLive  == PauseMode = "slow"
+LiveEpochs == {epoch, lastPers, lastPlanned}
+              \cup (IF PSnapLive THEN {pSnap} ELSE {}) \cup (IF MSnapLive THEN {mSnap} ELSE {})
+              \cup (IF PWLive THEN {pWep} ELSE {}) \cup (IF MWLive THEN {mWep} ELSE {})
+              \cup (IF SlowLive THEN {lastMerged} ELSE {})
+              \cup (IF SlowLive /\ pSlot # "empty" THEN {pSlotEp} ELSE {})
+MinLive == CHOOSE m \in LiveEpochs : \A x \in LiveEpochs : m <= x
+Sh(live, v) == IF live THEN v - MinLive + 1 ELSE 0
+View == <<pc, op, pb, nops, cancelled, rd, viol, lvars, clvars, bvars, unp, ivars,
+          ppc, IF PSnapLive THEN pUnp ELSE 0, pW, iSlot, mpc, ctrl, nMerges, mW, pSlot, fvars,
+          Sh(TRUE, epoch), Sh(TRUE, lastPers), Sh(TRUE, lastPlanned), Sh(PSnapLive, pSnap), Sh(MSnapLive, mSnap),
+          Sh(PWLive, pWep), Sh(MWLive, mWep), Sh(SlowLive, lastMerged), Sh(SlowLive /\ pSlot # "empty", pSlotEp)>>
 
 Symm == Permutations(Callers)
 =============================================================================
